@@ -12,7 +12,7 @@ LEVEL = "exploration"
 MANIFEST = dict(
     engine="E5/E6+runner", engine_path="vlib/checks/c10.py",
     kind="generated hand-built graphs (payload tuples) and fluent programs -> real graph2job -> every task executed by the real runner.run with an in-memory Memory stand-in; values compared with direct evaluation of the graph",
-    technique="runtime monitoring with a reference evaluator: task callables are recorders returning symbolic terms of exactly the arguments they received (hand-built graphs) or NumPy arrays (fluent programs); after lowering with the real graph2job every task is run by the real runner.run in topological order and the value stored under each DatasetId is compared with the independent evaluation of the *graph*, a generator's i-th value belonging to node.outputs[i]; structural monitor on tasks/edges; generators yielding declared+-k values must fail the task",
+    technique="runtime monitoring with a reference evaluator: task callables are recorders returning symbolic terms of exactly the arguments they received (hand-built graphs) or NumPy arrays (fluent programs); after lowering with the real graph2job every task is run by the real runner.run in topological order and the value stored under each DatasetId is compared with the independent evaluation of the *graph*, a generator's i-th value belonging to node.outputs[i]; structural monitor on tasks/edges; generators yielding declared+-k values must fail the task; plus a direct injectivity probe of the shared-memory key (ds2shmid) over families of (task, output) pairs whose plain or separator-joined concatenations coincide",
     text="Held = structure (one task per node, one edge per input at the position of the input's name) and every stored value agreed with direct evaluation on all graphs generated, and every output-count mismatch raised.",
     note="Memory is replaced by an in-memory store with the same provide/handle interface (shared memory is C09's business); graphs follow the documented payload convention (inputs named in args, static kwargs).",
 )
